@@ -38,7 +38,7 @@ fn main() {
         assert_eq!(x.get_sig(), x.to_ne_bytes().to_vec());
     }
     // vectors: empty, 1, many
-    for n in [0usize, 1, 2, 3, 20, 257] {
+    for n in [0usize, 1, 2, 3, 4, 5, 7, 8, 9, 15, 16, 17, 20, 24, 31, 32, 33, 64, 65, 257] {
         let v8: Vec<u8> = (0..n).map(|i| (i * 7 + 3) as u8).collect();
         let s = v8.get_sig();
         assert_eq!(s, v8);
